@@ -162,7 +162,8 @@ class Codec:
         msg = rawmsg[valid_idx:].decode("latin-1")
 
         next_msg = msg[5:].find("8=FIX.")
-        if next_msg != -1:
+        has_next_msg = next_msg != -1
+        if has_next_msg:
             # Next fix message added, but incomplete
             next_msg += 5
         else:
@@ -184,6 +185,9 @@ class Codec:
         # at a minimum we require BeginString, BodyLength & Checksum
         if len(msg) < 3:
             assert silent, "Minimum message"
+            if has_next_msg:
+                # another frame starts behind this fragment: it will never be completed
+                return (None, parsed_length + next_msg, None)
             return (None, parsed_length, None)
 
         tag, value = msg[0].split("=", 1)
